@@ -144,13 +144,7 @@ func c08R5(c *Ctx) {
 				}
 			}
 			// the whole buffer: only where the remainder is at least the buffer's length
-			okEdge := false
-			for _, f := range l.facts() {
-				op, x, y, ok := cmpFact(f)
-				if k, isK := constInt(y); ok && op == token.GEQ && isRem(x) && isK && capLen >= 0 && k >= capLen {
-					okEdge = true
-				}
-			}
+			okEdge := capLen >= 0 && factCmp(l.facts(), token.GEQ, isRem, func(v ssa.Value) bool { k, isK := constInt(v); return isK && k >= capLen })
 			if !okEdge {
 				goodB = false
 			}
@@ -228,12 +222,12 @@ func c08R5(c *Ctx) {
 	})
 	// both ends run the exchange only for a non-empty target
 	for _, ci := range stage {
-		good := factCmp(factsAt(ci.Block()), token.GTR, isFieldLoad("Size"), isConstIntV(0))
+		good := factPositive(factsAt(ci.Block()), isFieldLoad("Size"))
 		c.check(good, "sendPrefixHash/exchange-iff-target-nonempty", c.ipos(ci), "the sender starts the exchange on the target-size > 0 edge", "the sender's early exit is taken on the wrong edge")
 	}
 	rf := c.fn("trzszTransfer.recvPrefixHash")
 	for _, ci := range callsIn(rf, idIs(tT+"recvHash")) {
-		good := factCmp(factsAt(ci.Block()), token.GTR, isFieldLoad("Size"), isConstIntV(0))
+		good := factPositive(factsAt(ci.Block()), isFieldLoad("Size"))
 		c.check(good, "recvPrefixHash/exchange-iff-target-nonempty", c.ipos(ci), "the receiver runs the exchange on the target-size > 0 edge", "the receiver's early exit is taken on the wrong edge")
 	}
 	// the receiver leaves the loop on the closing message, and hashes only forward
@@ -247,7 +241,7 @@ func c08R5(c *Ctx) {
 		c.check(good, "recvPrefixHash/cut-after-over", c.ipos(ci), "the file is cut only after the sender's closing message", "the file is cut before the sender's closing message: later hash messages meet a receiver that already moved on")
 	}
 	for _, ci := range callsIn(rf, idIs("io.CopyN")) {
-		good := factCmp(factsAt(ci.Block()), token.GTR, isValue(ci.Common().Args[2]), isConstIntV(0))
+		good := factPositive(factsAt(ci.Block()), isValue(ci.Common().Args[2]))
 		c.check(good, "recvPrefixHash/forward-step", c.ipos(ci), "a block is hashed only when the peer's step moves forward", "the block length fed to the hasher is not known positive")
 	}
 }
